@@ -3,10 +3,10 @@
 // Verification contracts for cmd/broker, property C22. Comment-only; read by /verif/govc.
 // The per-partition initialisation key of getPartitionLog (singleflight) is topic + "/" + partition: with a
 // topic name free of '/' two different (topic, partition) pairs never share it (lemma C22.lemma.lease_keys_injective,
-// c22ResourceID). Exploration is cut after the call; the rest of getPartitionLog belongs to C24 / C06.
+// c22ResourceID). For the C22 check exploration is cut after the call; the rest of getPartitionLog belongs to C24 / C06.
 
 package main
 
 //@ func (h *handler) getPartitionLog
 //@   at Do#1 before assert [C22.loginit_key] arg0 == c22ResourceID(topic, fmtd(partition))
-//@   at Do#1 after stop
+//@   at Do#1 after stop [C22]
